@@ -306,6 +306,10 @@ func Apply(ctx context.Context, rc *regclient.RegClient, rSrc ref.Ref, opts ...O
 			// if added or replaced, and reader not nil, push blob
 			if (dl.mod == added || dl.mod == replaced) && rdr != nil {
 				// push the blob and verify the results
+				if dl.newDesc.MediaType == "" {
+					// an added layer that no step described again keeps its media type
+					dl.newDesc.MediaType = dl.desc.MediaType
+				}
 				dNew, err := rc.BlobPut(ctx, rTgt, dl.newDesc, rdr)
 				if err != nil {
 					return nil, err
